@@ -60,6 +60,10 @@ fn hist<W: WorldDriver>(m: &HashMap<String, String>) -> i32 {
     let len: usize = m.get("len").map(|s| s.parse().unwrap()).unwrap_or(120);
     let seed: u64 = m.get("seed").map(|s| s.parse().unwrap()).unwrap_or(1);
     let cfg = Cfg::new(intensity(m.get("intensity")));
+    if let (Some(h), Some(f)) = (m.get("dump-hash"), m.get("dump-out")) {
+        let h = u64::from_str_radix(h, 16).expect("--dump-hash is hex");
+        vh::run::DUMP.with(|d| *d.borrow_mut() = Some((h, f.clone())));
+    }
     let res = search::<W>(&spec, &cfg, cases, len, seed, m.contains_key("traces"), m.get("last-case").map(|s| s.as_str()));
     if let Some(out) = m.get("out") {
         std::fs::write(out, res.stats.to_json()).expect("write stats");
@@ -235,7 +239,7 @@ fn replay<W: WorldDriver>(prop: &str, case: &Case, path: &str, m: &HashMap<Strin
             0
         }
         None => {
-            println!("PASS prop={} replay={} ops={} labels={}", prop, path, out.ops_run, out.labels.iter().cloned().collect::<Vec<_>>().join(","));
+            println!("PASS prop={} replay={} ops={} trace={:016x} labels={}", prop, path, out.ops_run, out.trace, out.labels.iter().cloned().collect::<Vec<_>>().join(","));
             0
         }
     }
